@@ -1096,6 +1096,11 @@ class Process(StateMachine, persistence.Savable, metaclass=ProcessStateMachineMe
 
     # region State related methods
 
+    def transition_to(self, new_state: Optional[state_machine.State], **kwargs: Any) -> None:
+        # The state hooks (``on_run``, ``on_finished``, ...) are code of this process
+        with self._process_scope():
+            super().transition_to(new_state, **kwargs)
+
     def transition_failed(
         self,
         initial_state: Hashable,
@@ -1165,8 +1170,9 @@ class Process(StateMachine, persistence.Savable, metaclass=ProcessStateMachineMe
             else:
                 msg_text = state_msg[MESSAGE_TEXT_KEY]
 
-            call_with_super_check(self.on_pausing, msg_text)
-            call_with_super_check(self.on_paused, msg_text)
+            with self._process_scope():
+                call_with_super_check(self.on_pausing, msg_text)
+                call_with_super_check(self.on_paused, msg_text)
         finally:
             if self._pausing is pausing:
                 self._pausing = None
@@ -1229,7 +1235,8 @@ class Process(StateMachine, persistence.Savable, metaclass=ProcessStateMachineMe
                 self._set_interrupt_action(None)
             return True
 
-        call_with_super_check(self.on_playing)
+        with self._process_scope():
+            call_with_super_check(self.on_playing)
         return True
 
     @event(from_states=process_states.Waiting)
